@@ -15,7 +15,6 @@ const maxInlineDepth = 8
 
 func (a *Activation) call(ins *ssa.Call, st *State, rc *string) Val {
 	x := a.x
-	c := x.ctx
 	com := ins.Common()
 	var args []Val
 	for _, ar := range com.Args {
@@ -32,7 +31,7 @@ func (a *Activation) call(ins *ssa.Call, st *State, rc *string) Val {
 		// dynamic call of a function value
 		f := a.val(com.Value)
 		x.oblige(a.oname("safe-call-nil"), "", *rc, not(eq(f.S, "0")), ins.Pos(), nil, "call of nil function value")
-		st.ncall = c.Define("ncall", "Int", app("+", st.ncall, "1"))
+		x.logAppend(st, f, args)
 		r := x.applyFunc(f, args)
 		r = x.nameVal(ins.Name(), r)
 		if r.K != KTuple || len(r.Fs) > 0 {
